@@ -204,8 +204,8 @@ def gen_cases(tier, seed):
     cases = []
     quick = tier == "quick"
     # ---- lattice samples over the library (expensive ones first) -------------------------
-    n_lib = 140 if quick else 2500
-    n_exc = 22 if quick else 220
+    n_lib = 60 if quick else 2500
+    n_exc = 12 if quick else 220
     lib = []
     for _ in range(n_exc):
         lib.append(_excited_case(g, tier))
@@ -236,14 +236,18 @@ def gen_cases(tier, seed):
                 sc = scales[int(g.integers(0, 3))]
                 uhf = (k % 6 == 0)
                 pairs.append(_pair_case(g, method, a, b, sc, _orient_generic(), uhf=uhf,
-                                        conv=([[1], [0, 0.3]][int(g.integers(0, 2))] if uhf else None)))
-                if k % 5 == int(g.integers(0, 5)):
+                                        conv=([[1], [0, 0.3]][int(g.integers(0, 2))] if uhf else None),
+                                        modes=(None if k % 2 == 0 else ["autodiff", "analytical"])))
+                if k % 16 == int(g.integers(0, 16)):
                     pairs.append(_pair_case(g, method, a, b, scales[int(g.integers(0, 3))], _orient_axis(g), uhf=False))
             else:
                 for si, sc in enumerate(scales):
                     pairs.append(_pair_case(g, method, a, b, sc, _orient_generic(), uhf=(odd and si == 1) or (k + si) % 5 == 0))
                     pairs.append(_pair_case(g, method, a, b, sc, _orient_axis(g, cones=CONES_THOROUGH),
                                             uhf=(k + si) % 7 == 0))
+    if quick:
+        # slow converging open-shell diatomics first, so that they do not form the tail of the run
+        pairs.sort(key=lambda c: 0 if c["uhf"] else 1)
     cases = lib + pairs
     if not quick:
         # the excited-state cases (most expensive) stay in front; the rest is interleaved so that a run cut short by the
@@ -341,8 +345,11 @@ def _batch_arrays(case, rows):
 def _directions(case, Z, X, g):
     n = len(Z)
     dirs, labels = [], []
+    quick_pair = case["kind"] == "pair" and case.get("tier") == "quick"
     if 3 * n <= 12:
-        for a in range(n):
+        # quick-tier diatomics: Cartesian components of atom 0 only; atom 1 enters through the bond-stretch and
+        # bond-rotate directions below (5 directions instead of 8)
+        for a in range(1 if quick_pair else n):
             for c in range(3):
                 d = np.zeros((n, 3))
                 d[a, c] = 1.0
